@@ -163,7 +163,7 @@ var clientMuts = []mut{
 			s.DomainName = proto.String("xn--bcher-kva.example")
 		}
 	}},
-	{"server.ports", 4, func(c *pb.ClientConfig, k int) {
+	{"server.ports", 6, func(c *pb.ClientConfig, k int) {
 		s := c.Profiles[0].Servers[0]
 		switch k {
 		case 0:
@@ -174,6 +174,11 @@ var clientMuts = []mut{
 			s.PortBindings = []*pb.PortBinding{{Port: proto.Int32(1), Protocol: pb.TransportProtocol_UDP.Enum()}, {Port: proto.Int32(65535), Protocol: pb.TransportProtocol_TCP.Enum()}}
 		case 3:
 			s.PortBindings = []*pb.PortBinding{{PortRange: proto.String("1-2"), Protocol: pb.TransportProtocol_TCP.Enum()}}
+		case 4:
+			// both fields set: the port is what the profile uses (FlatPortBindings never looks at the range then)
+			s.PortBindings = []*pb.PortBinding{{Port: proto.Int32(8964), PortRange: proto.String("2012-2022"), Protocol: pb.TransportProtocol_TCP.Enum()}}
+		case 5:
+			s.PortBindings = []*pb.PortBinding{{Port: proto.Int32(8964), PortRange: proto.String("unused"), Protocol: pb.TransportProtocol_UDP.Enum()}}
 		}
 	}},
 	{"second-server", 1, func(c *pb.ClientConfig, k int) {
@@ -283,7 +288,14 @@ func (c *ctx) checkClient(cfg *pb.ClientConfig) bool {
 			if err != nil {
 				return c.fail("simple-url-roundtrip", fmt.Sprintf("own mierus:// link is rejected on import: %v", err), l+"\n"+show(p))
 			}
-			want := &pb.ClientProfile{ProfileName: p.ProfileName, User: &pb.User{Name: p.User.Name, Password: p.User.Password}, Servers: []*pb.ServerEndpoint{p.Servers[i]},
+			// the link carries what the profile uses: of a binding with both fields that is the port
+			srv := proto.Clone(p.Servers[i]).(*pb.ServerEndpoint)
+			for _, b := range srv.PortBindings {
+				if b.GetPort() != 0 {
+					b.PortRange = nil
+				}
+			}
+			want := &pb.ClientProfile{ProfileName: p.ProfileName, User: &pb.User{Name: p.User.Name, Password: p.User.Password}, Servers: []*pb.ServerEndpoint{srv},
 				Mtu: p.Mtu, Multiplexing: p.Multiplexing, HandshakeMode: p.HandshakeMode, TrafficPattern: p.TrafficPattern}
 			if !equiv(q, want) {
 				return c.fail("simple-url-roundtrip", "mierus:// export then import differs on a field the link format carries", "link: "+l+"\nwant: "+show(want)+"\ngot:  "+show(q))
